@@ -10,7 +10,7 @@ from mon.fnlib import trans as tr
 # (function, argument kinds): p = parameter, v = variable, t = time, a = any value (variable or derived)
 RATE_TABLE = [
     (tr.t_const, "p"), (tr.t_ma1, "pa"), (tr.t_ma2, "pav"), (tr.t_mm, "vpp"), (tr.t_rev, "vvpp"), (tr.t_inh, "vap"),
-    (tr.t_hill, "vpn"), (tr.t_cond, "vp"), (tr.t_chain, "vp"), (tr.t_elif, "vp"), (tr.t_nested, "vp"), (tr.t_local, "vp"), (tr.t_time, "pt"),
+    (tr.t_hill, "vpn"), (tr.t_cond, "vp"), (tr.t_chain, "vp"), (tr.t_elif, "vp"), (tr.t_nested, "vp"), (tr.t_local, "vp"), (tr.t_time, "pt"), (tr.t_cap, "vp"),
 ]
 
 
@@ -21,12 +21,18 @@ def gen(rng, *, ia: bool = True, time: bool = True, conditionals: bool = True, c
     variables = [f"x{i}" for i in range(nvar)]
     comps: list[dict] = []
     params = [f"k{i}" for i in range(rng.randint(2, 6))]
+    feats0 = set()
+    if rng.random() < 0.5:
+        # model names equal to the rate laws' own parameter names, used at other positions (s, p, a, b, i / k, vmax, km, kf, kr)
+        variables = rng.sample(["s", "a", "b", "i", "p"], nvar)
+        params = rng.sample(["k", "vmax", "km", "kf", "kr", "x"], len(params))
+        feats0.add("names_overlap_function_parameters")
     for p in params:
         comps.append({"kind": "parameter", "name": p, "value": round(rng.uniform(0.3, 2.0), 3)})
     comps.append({"kind": "parameter", "name": "nh", "value": rng.choice([1.0, 2.0])})
     for v in variables:
         comps.append({"kind": "variable", "name": v, "value": round(rng.uniform(0.3, 2.5), 3)})
-    feats = set()
+    feats = set(feats0)
     derived: list[str] = []
     if ia and rng.random() < 0.4:
         comps.append({"kind": "parameter", "name": "kia", "ia": {"fn": L(tr.t_add), "args": [rng.choice(params), rng.choice(variables)]}})
@@ -47,7 +53,7 @@ def gen(rng, *, ia: bool = True, time: bool = True, conditionals: bool = True, c
         derived.append("dpw")
     touched = set()
     nrx = rng.randint(1, 4)
-    table = [r for r in RATE_TABLE if (time or "t" not in r[1]) and (conditionals or r[0] not in (tr.t_cond, tr.t_chain, tr.t_elif))]
+    table = [r for r in RATE_TABLE if (time or "t" not in r[1]) and (conditionals or r[0] not in (tr.t_cond, tr.t_chain, tr.t_elif, tr.t_cap))]
     for j in range(nrx):
         fn, kinds = rng.choice(table)
         if untranslatable and j == 0:
@@ -66,7 +72,7 @@ def gen(rng, *, ia: bool = True, time: bool = True, conditionals: bool = True, c
                 feats.add("time")
             else:
                 args.append(rng.choice(variables + derived))
-        if fn in (tr.t_cond, tr.t_chain, tr.t_elif):
+        if fn in (tr.t_cond, tr.t_chain, tr.t_elif, tr.t_cap):
             feats.add("conditional")
         pool = variables if not untouched or nvar == 1 else variables[: max(1, nvar - rng.randint(0, 1))]
         tv = rng.sample(pool, rng.randint(1, min(2, len(pool))))
